@@ -92,6 +92,18 @@ func meet(a, b []mnode, m *meets) {
 	}
 }
 
+// mavenCompat renders whether two parsed versions are free of such meetings.
+func mavenCompat(a, b item) string {
+	x, r1, ok1 := parseTree(a.val.(mvnV).tree)
+	y, r2, ok2 := parseTree(b.val.(mvnV).tree)
+	if !ok1 || !ok2 || r1 != "" || r2 != "" {
+		return "tree-unreadable"
+	}
+	var m meets
+	meet(x.list, y.list, &m)
+	return strconv.FormatBool(!(m.strList || m.zeroStr || m.zeroList))
+}
+
 // mavenClass: a transitivity (or congruence) failure is of a listed class
 // exactly when two of the three versions have, at the same position, a
 // string against a list (maven-intransitive) or a zero number against a
